@@ -214,6 +214,24 @@ fn main() {
             }
         }
     }
+    // phase 5: clusters next to their own proper prefixes -- a base letter with and without its
+    // combining mark, CR LF next to a lone CR and a lone LF: two strings can share a code-point prefix
+    // that ends inside a cluster of one of them
+    {
+        let pre_all = strings(&["e", "\u{301}", "x", "\r", "\n"], run.pick(3, 4));
+        run.bounds.insert("cluster_prefix_phase".into(), json!(format!("all pairs of the {} strings over [e, U+0301, x, CR, LF] x all flags", pre_all.len())));
+        let base5 = base3 + xy_chars.len() * (xy_chars.len() - 1) * xy_all.len() + 3 * tu_verif::enumerate::threshold_lengths(run.pick(8, 10)).len();
+        for (ia, a) in pre_all.iter().enumerate() {
+            if !run.unit((base5 + ia) as u64) {
+                continue;
+            }
+            for b in &pre_all {
+                for flags in 0..8u32 {
+                    check(&mut run, a, b, flags & 1 != 0, flags & 2 != 0, flags & 4 != 0);
+                }
+            }
+        }
+    }
     // phase 4: long strings -- lengths around the powers of two a size threshold would sit at (a
     // fast path for short strings, a chunked table); a is a repeated pattern, b is a with one
     // disturbance at the start, in the middle or at the end, or another long string
